@@ -463,6 +463,12 @@ impl World {
             ctx.check("offered.filter_exact", p(6), expect == rs, || {
                 format!("offered list {:?}\nexpected (rule-only list minus exactly the turn-ending actions the exact history forbids) {:?}", rs, expect)
             });
+            if withheld_any && ctx.captured.len() < ctx.capture_limit {
+                // class 2: some but not all turn-ending actions are third repetitions (mixed answers)
+                let thirds = ns.len() - expect.len();
+                let class = if step_e == 3 && thirds > 0 && !expect.is_empty() { 2 } else { 1 };
+                ctx.captured.push((class, self.gs.clone()));
+            }
             if withheld_any {
                 let fp = state_fp(&board, side_e, step_e, self.m.pending);
                 ctx.nontrivial(p(6), fp);
